@@ -198,7 +198,11 @@ def s3(ctx, rep):
     rep.put(not others, "S3", "who_may_write", "SynchronousBracket.current_rung is advanced by on_result only", f, others[0][1] if others else None, "",
             f"{others[0][0].short if others else ''} moves the bracket to another rung outside the completion of the current one")
     g = P.method("SynchronousBracket", "num_pending_slots")
-    ok = any(isinstance(x, ast.Call) and fn_name(x) == "sum" and "is None" in U(x) and "_first_free_pos" in U(x) for x in walk_shallow(g.node))
+    from ..engine import canon_text as _ct
+    import re as _re
+    # (the count may go through a local; comprehension variables are numbered by canon_text - any name will do for them)
+    ok = any(r_.value is not None and (_pending_count(U(r_.value)) or _pending_count(_re.sub(r"\b_b(\d+)\b", r"x\1", _ct(g, r_.value))))
+             for r_ in returns_of(g) if not isinstance(r_.value, ast.Constant))
     rep.put(ok, "S3", "agreement", "SynchronousBracket.num_pending_slots counts handed-out positions without a metric", g, None, "")
 
 
